@@ -265,9 +265,11 @@ def com_field_list_to_show_statement(com_field_list: ComFieldList) -> str:
 
 
 def like_to_regex(like: str) -> re.Pattern:
-    like = like.replace("%", ".*?")
-    like = like.replace("_", ".")
-    return re.compile(like)
+    # SQL LIKE matches the whole string; everything but % and _ is literal
+    pattern = "".join(
+        ".*" if c == "%" else "." if c == "_" else re.escape(c) for c in like
+    )
+    return re.compile(pattern + r"\Z", re.DOTALL)
 
 
 class BaseInfoSchema:
